@@ -82,6 +82,10 @@ type script struct {
 	Lag [][2]int `json:"lag,omitempty"`
 	// NoFlush: keep to the scripted response sizes after the writer has finished
 	NoFlush bool `json:"no_flush,omitempty"`
+	// FreshBuf: every Write gets a slice of its own that is never touched again.  Default (false):
+	// the writer reuses ONE buffer for all its Writes, as io.Copy does — it scribbles over it as
+	// soon as Write has returned and refills it with the next payload
+	FreshBuf bool `json:"fresh_buf,omitempty"`
 }
 
 type session struct {
@@ -378,18 +382,37 @@ func runSession(sv *server, cf base.ClientFactory, s *session) {
 		defer close(writerDone)
 		defer atomic.StoreInt32(&s.writerFin, 1)
 		off := 0
+		maxw := 0
+		for _, sz := range sc.Writes {
+			if sz > maxw {
+				maxw = sz
+			}
+		}
+		wbuf := make([]byte, maxw)
 		for j, sz := range sc.Writes {
 			if closeKind == "after-write" && closeArg == j {
 				closeNow()
 			}
-			p := s.up[off : off+sz]
+			orig := s.up[off : off+sz]
 			off += sz
+			p := orig
+			if !sc.FreshBuf {
+				p = wbuf[:sz]
+				copy(p, orig)
+			}
 			s.mu.Lock()
-			s.called.Write(p)
-			s.log = append(s.log, "wc:"+vlib.Hex(p))
+			s.called.Write(orig)
+			s.log = append(s.log, "wc:"+vlib.Hex(orig))
 			wasClosed := s.closedAt >= 0
 			s.mu.Unlock()
 			n, err := conn.Write(p)
+			if !sc.FreshBuf {
+				// Write has returned: the buffer is the application's again
+				for i := range wbuf[:sz] {
+					wbuf[i] = 0xEE ^ byte(j)
+				}
+			}
+			p = orig
 			if err == nil && wasClosed {
 				s.viol("write-after-close-succeeds", fmt.Sprintf("Write no. %d was called after Close had returned and was accepted", j))
 			}
@@ -535,6 +558,8 @@ func judge(r *vlib.Run, d *vlib.Driver, s *session) {
 	r.Case(string(key), nt)
 	r.Validated(1)
 	r.Count("close", strings.SplitN(sc.Close, ":", 2)[0])
+	r.Count("write_buffer", map[bool]string{false: "one-reused-and-scribbled", true: "fresh-per-write"}[sc.FreshBuf])
+	r.Count("server_lag", map[bool]string{false: "none", true: "slow"}[sc.ServerLag > 0])
 	r.Count("requests", bucket(s.nreq))
 	for _, w := range sc.Writes {
 		r.Count("write_size", sizeClass(w))
@@ -556,7 +581,7 @@ func judge(r *vlib.Run, d *vlib.Driver, s *session) {
 		}
 	}
 	if sc.Close == "drained" && s.allOK && !bytes.Equal(up, s.accepted.Bytes()) {
-		s.viol("upstream-bytes-lost", fmt.Sprintf("all writes returned and the stream was drained before Close: the server got %d bytes, the application wrote %d", len(up), s.accepted.Len()))
+		s.viol("upstream-bytes-lost", fmt.Sprintf("all writes returned and the stream was drained before Close: the server got %d bytes, the application wrote %d; they agree on the first %d bytes only", len(up), s.accepted.Len(), firstDiff(up, s.accepted.Bytes())))
 	}
 	if !bytes.HasPrefix(s.respBodies.Bytes(), s.readGot.Bytes()) {
 		s.viol("downstream-bytes-differ", fmt.Sprintf("the %d bytes returned by Read are not a prefix of the %d response bytes (first difference at %d)", s.readGot.Len(), s.respBodies.Len(), firstDiff(s.readGot.Bytes(), s.respBodies.Bytes())))
@@ -720,9 +745,10 @@ func genScript(rng *vlib.Rng, i int) script {
 			sc.Close = "after-fail"
 		}
 	}
-	if rng.Intn(4) == 0 {
-		sc.ServerLag = rng.Range(50, 1500)
+	if rng.Intn(3) == 0 {
+		sc.ServerLag = rng.Range(50, 3000)
 	}
+	sc.FreshBuf = rng.Intn(5) == 0
 	if rng.Intn(3) == 0 && sc.Down > 1 {
 		// the reader lags: several non-empty responses (distinct sizes) are fetched before it reads
 		sc.Resp = [][]int{{100, 7, 3000}, {65536, 1, 20000}, {5, 60000, 9, 300}, {1000, 999, 998}}[rng.Intn(4)]
@@ -775,6 +801,12 @@ func closeEverywhere() []script {
 			Resp: []int{300, 20, 150, 7, 90, 33}, Down: 600, FailAt: -1, Close: "drained", Lag: [][2]int{{0, 2}, {3, 4}, {9, 6}}, NoFlush: true},
 		script{Name: "lag-carry-over-large", Writes: small, ReadSizes: []int{1000, 50000, 9}, Reads: -1,
 			Resp: []int{40000, 65536, 100, 30000}, Down: 135636, FailAt: -1, Close: "drained", Lag: [][2]int{{0, 2}, {1, 3}, {2, 4}}, NoFlush: true},
+	)
+	out = append(out,
+		script{Name: "reused-buffer-slow-server", Writes: []int{1, 1, 1, 1, 1, 1, 1, 1}, ReadSizes: []int{4096}, Reads: -1,
+			Resp: []int{0, 3}, Down: 12, FailAt: -1, Close: "drained", ServerLag: 4000},
+		script{Name: "reused-buffer-slow-server-mixed", Writes: []int{100, 7, 30000, 1, 65537, 2, 500, 9}, ReadSizes: []int{4096}, Reads: -1,
+			Resp: []int{10, 0}, Down: 100, FailAt: -1, Close: "drained", ServerLag: 3000},
 	)
 	out = append(out,
 		script{Name: "three-max-bodies", Writes: []int{196608, 196608, 1}, ReadSizes: []int{4096}, Reads: -1, Resp: []int{65536}, Down: 200000, FailAt: -1, Close: "drained"},
